@@ -17,6 +17,7 @@ func init() {
 		Category: "model_checking",
 		Rule: "for every writer setting: (a) every string over {a,b} up to length 10 and {a,b,c} up to 6, and every content kind at every size of a dense ladder 0..300 plus windows around each internal threshold, as one Write + Close; " +
 			"(a') for the accelerated settings every ramp(k), k=1..300 (k consecutive byte values: every non-zero run length of the header's run-length coder), gap(k), k=1..255 (every zero run length) and Fibonacci-distributed alphabets of 2..40 symbols (Huffman depth beyond 15: length limiting); " +
+			"(a'') token-cap straddle: incompressible / text prefixes of every length in [32690,32810) and [65400,65600) followed by a long run, a period-7 run or text, so that the last tokens of a full block are of every kind; " +
 			"(b) every sequence over {Write(piece), Flush}^<=d followed by Close with pieces chosen to hit the buffer-fill, slide, block-cap and wrap situations; " +
 			"non-trivial = the execution produced at least one compressed block from more than 8 bytes of data or contains a Flush",
 		Assumptions: []string{"compress/flate is a correct inflater", "the reference inflater is correct (self-checked against compress/flate on every valid stream)"},
@@ -108,7 +109,7 @@ func c01Harness(cfg *Cfg) func(x *mc.Exec) {
 	return func(x *mc.Exec) {
 		ki := x.Choose(len(kinds), "cfg")
 		k := kinds[ki]
-		mode := x.Choose(4, "mode")
+		mode := x.Choose(5, "mode")
 		sink := &env.Sink{}
 		r, err := newRun(k, sink)
 		if err != nil {
@@ -147,6 +148,32 @@ func c01Harness(cfg *Cfg) func(x *mc.Exec) {
 			if lad[si] > 8 {
 				x.NonTrivial()
 			}
+		case 4: // block token cap: the last tokens of a full block are of every kind (literal pair, short match, 258-chains of a long run)
+			if !k.Accelerated() || k.Level == -2 {
+				return
+			}
+			pk := []string{"rand", "text"}[x.Choose(2, "prefix-kind")]
+			var n int
+			if x.Choose(2, "cap") == 0 {
+				n = 32690 + x.Choose(120, "prefix-len") // one literal per token (pure Go finder)
+			} else {
+				n = 65400 + x.Choose(200, "prefix-len") // two literals per token (assembly finder)
+			}
+			tk := x.Choose(3, "tail-kind")
+			var tail []byte
+			switch tk {
+			case 0:
+				tail = pieces.Zero(8192, 0)
+			case 1:
+				tail = pieces.Per(3000, 7, cfg.Seed)
+			case 2:
+				tail = pieces.Text(3000, cfg.Seed+5)
+			}
+			d := append(append([]byte{}, content(pk, n)...), tail...)
+			if _, _, ok := r.do(x, "C01", opWrite, d, fmt.Sprintf("W(%s,%d + tail%d)", pk, n, tk)); !ok {
+				return
+			}
+			x.NonTrivial()
 		case 3: // header and code-construction shapes: every run length of the header's run-length coder, every Huffman depth
 			if !k.Accelerated() {
 				return
